@@ -13,7 +13,8 @@ from pathlib import Path
 
 from .common import scratch_dir
 
-PATHS = {"p1": "a.py", "p2": "pkg/b.py", "p3": "pkg/sub/c.py"}
+# p1 and p3 share their file name on purpose: an entry is keyed by its whole relative path (C09: "path ... unchanged")
+PATHS = {"p1": "a.py", "p2": "pkg/b.py", "p3": "pkg/sub/a.py"}
 
 
 def _body(n, start=0):
@@ -80,7 +81,7 @@ class World:
         if not y.exists():
             return []
         pats = [ln.strip()[2:].strip().strip('"') for ln in y.read_text().splitlines() if ln.strip().startswith("- ")]
-        return sorted(p for p, rel in PATHS.items() if rel in pats or rel.split("/")[-1] in pats)
+        return sorted(p for p, rel in PATHS.items() if "/" + rel in pats)
 
     def abstract_cache(self):
         cf = self.cache_file
@@ -205,7 +206,7 @@ class World:
                 y = self.root / ".codelimit.yml"
                 ex = list(op[1])
                 if ex:
-                    y.write_text("exclude:\n" + "".join(f'  - "{PATHS[p]}"\n' for p in ex))
+                    y.write_text("exclude:\n" + "".join(f'  - "/{PATHS[p]}"\n' for p in ex))
                 elif y.exists():
                     y.unlink()
             elif k == "ForeignVersion":
